@@ -83,6 +83,12 @@ impl Arena {
         self.offset.get()
     }
 
+    /// `(base address, capacity, committed bytes, offset)`; read-only.
+    #[cfg(feature = "verif-hooks")]
+    pub fn verif_state(&self) -> (usize, usize, usize, usize) {
+        (self.base.as_ptr() as usize, self.capacity, self.commit.get(), self.offset.get())
+    }
+
     /// Returns true if the given pointer falls within this arena's
     /// virtual reservation. Used by `ArenaCow::promote` to detect
     /// Borrowed pointers into frame-arena memory that must be copied
